@@ -40,7 +40,7 @@ theorem planQuery_cost_le_top_level_size (s : Schema) (doc : Document) (opName :
     split
     · simp
     · refine ⟨?_, rfl⟩
-      have := collectTop_collect_le (Env.ctx ⟨s, fragTable doc, none⟩ root) ss
+      have := collectTop_collect_le (Env.ctx ⟨s, fragTable doc, none⟩ root) [] ss
       simpa [rootPlan, Env.ctx] using this
 
 /-! ### the top-level size is at most the number of selection sets written in the document -/
@@ -227,7 +227,7 @@ theorem lazy_plans_only_encountered_types (s : Schema) (doc : Document) (opName 
 
 /-- T1. The visited set: within one `planMergedSelectionsForType` call (and within the root collection) the body
 of each named fragment is entered at most once, however often and wherever it is spread. -/
-theorem collect_visits_each_fragment_once_per_set (c : Ctx) (subs : List SelectionSet) :
+theorem collect_visits_each_fragment_once_per_set (c : Ctx) (subs : List (SelectionSet × Chain)) :
     (planMerged c subs {}).entered.Nodup :=
   (planMerged_ent c subs {} ⟨List.nodup_nil, fun _ h => by simp at h⟩).1
 
@@ -242,7 +242,7 @@ in document size and data size, independent of the number of possible types. -/
 theorem plan_work_le_completed_positions (s : Schema) (doc : Document) (opName : String) (vars : Vars) (world : World) :
     let r := execPlan s doc opName vars world
     r.counts.collect ≤ topLevelSize s doc opName +
-        (r.log.map (fun en => (en.subs.map (fun ss => 1 + inlSet ss)).sum + fragsSize (fragTable doc))).sum ∧
+        (r.log.map (fun en => (en.subs.map (fun ss => 1 + inlSet ss.1)).sum + fragsSize (fragTable doc))).sum ∧
     r.counts.pms = r.log.length ∧
     (r.log.map (·.id)).Nodup ∧
     r.log.length ≤ world.size := by
@@ -258,11 +258,11 @@ theorem plan_work_le_completed_positions (s : Schema) (doc : Document) (opName :
     have hfr : e.frags = fragTable doc := by rw [← he]
     have hok := execW_ok e world (rootPlan e root ss).fields [] {} ⟨List.nodup_nil, fun _ h => by simp at h, rfl⟩
     have hroot : (rootPlan e root ss).collect ≤ 1 + inlSet ss + fragsSize (fragTable doc) := by
-      have := collectTop_collect_le (e.ctx root) ss
+      have := collectTop_collect_le (e.ctx root) [] ss
       simpa [rootPlan, Env.ctx, hfr] using this
     refine ⟨?_, by first | rfl | trivial, hok.1, ?_⟩
     · have hsum : ∀ (log : List Entry), (∀ en ∈ log, EntryOK e.frags en) →
-          logCollect log ≤ (log.map (fun en => (en.subs.map (fun ss => 1 + inlSet ss)).sum + fragsSize (fragTable doc))).sum := by
+          logCollect log ≤ (log.map (fun en => (en.subs.map (fun ss => 1 + inlSet ss.1)).sum + fragsSize (fragTable doc))).sum := by
         intro log
         induction log with
         | nil => intro _; simp [logCollect]
@@ -337,10 +337,11 @@ def exWorld : World :=
 example : planCost exSchema exDoc "" = ⟨2, 0⟩ := by decide +kernel
 example : topLevelSize exSchema exDoc "" = 3 := by decide +kernel
 example : docSets exDoc = 7 := by decide +kernel
-example : execPlanCost exSchema exDoc "" [] exWorld = ⟨10, 4⟩ := by decide +kernel
+/-- the third level of `x` is not planned: below `F0 → x → F1 → x` the spread of `F0` is on the chain (descent-path guard) -/
+example : execPlanCost exSchema exDoc "" [] exWorld = ⟨6, 3⟩ := by decide +kernel
 example : (execPlan exSchema exDoc "" [] exWorld).oof = false := by decide +kernel
 example : (execPlan exSchema exDoc "" [] exWorld).log.map (·.id) =
-    [[("x", "Q"), ("y", "Q")], [("x", "Q"), ("x", "Q"), ("x", "Q")], [("x", "Q"), ("x", "Q")], [("x", "Q")]] := by
+    [[("x", "Q"), ("y", "Q")], [("x", "Q"), ("x", "Q")], [("x", "Q")]] := by
   decide +kernel
 /-- implementers do not matter: sixteen more implementers of `I`, same plan counters (instance of the theorem) -/
 example : planCost (extend exSchema ((List.range 16).map (fun i => .object s!"T{i}" ["I"] [] false ""))) exDoc ""
